@@ -453,7 +453,12 @@ impl Jwk {
     }
 
     if let Some(value) = self.key_ops() {
-      public.set_key_ops(value.iter().map(|op| op.invert()));
+      if self.is_public() {
+        // Already a public key: its operations are those of the public part, keep them.
+        public.set_key_ops(value.iter().copied());
+      } else {
+        public.set_key_ops(value.iter().map(|op| op.invert()));
+      }
     }
 
     if let Some(value) = self.alg() {
